@@ -210,6 +210,31 @@ def beyond_alphabet(ctx, modes):
     return n
 
 
+def arrived_but_failed_traces(ctx, modes, complete_only=False):
+    """A write of a command did reach the device although the transport reported a timeout for it (every write of the command in turn:
+    OPEN header, OPEN payload, OKAYs, CLSE); the caller goes on with other commands, which must return exactly their own output."""
+    from .. import transports
+    traces, specs = [], []
+    for mode in modes:
+        base = scen.run(dict(seed=ctx.seed, maxdata=4096, rid='plus', frag='whole', ops=[dict(api='shell', decode=False, cmd='a', chunks=[b'A'.hex()])]), mode)
+        calls = base.sess.core.calls
+        wcalls = [k for k, c in enumerate(calls) if c[0] == 'bulk_write']
+        for wi, k in enumerate(wcalls):
+            if wi < 2:
+                continue                 # the CNXN's two writes
+            # a 24-byte write that is directly followed by a write of another size is a header whose payload is still to come
+            header_of_more = calls[k][1][0] == 24 and wi + 1 < len(wcalls) and calls[wcalls[wi + 1]][1][0] != 24 and wcalls[wi + 1] == k + 1
+            if complete_only and header_of_more:
+                continue                 # failing between header and payload leaves a message half-sent: the byte stream is then broken by the fault itself
+            spec = dict(seed=ctx.seed, maxdata=4096, rid=('plus', 'same')[k % 2], frag='whole',
+                        ops=[dict(api='shell', decode=False, cmd='a', chunks=[b'A'.hex()], read_timeout_s=1.0), dict(api='shell', decode=False, cmd='b', chunks=[b'B1'.hex(), b'B2'.hex()], read_timeout_s=1.0),
+                             dict(api='streaming_shell', decode=False, cmd='c', chunks=[b'C'.hex()], read_timeout_s=1.0)])
+            rr = scen.run(spec, mode, fault=transports.Fault(at={k: 'timeout_after'}), stall='raise')
+            traces.append(scen.project_events(rr, spec))
+            specs.append((mode, spec, k))
+    return traces, specs
+
+
 def abort_then_decode_traces(ctx, modes):
     """A decode=True command fails right after a WRITE that ends in the middle of a character (the device falls silent);
     the next decode=True command on the same object (also after close/connect) must decode only what its own stream wrote."""
@@ -307,6 +332,9 @@ def body(ctx):
     t4, s4 = stale_after_reconnect_traces(ctx, ['sync', 'async'])
     traces += t4
     specs += s4
+    t5, s5 = arrived_but_failed_traces(ctx, ['sync', 'async'], complete_only=True)
+    traces += t5
+    specs += [(m_, sp_) for (m_, sp_, _) in s5]
     ctx.count(evaluations=big_decode(ctx, ['sync', 'async']))
     ctx.count(evaluations=beyond_alphabet(ctx, ['sync', 'async']))
     if ctx.violations:
